@@ -252,8 +252,8 @@ def valid_ext_list(acc, cfg):
     )
 
 
-def observable_unit(interleave):
-    @unit(f"C16.observable.{interleave}", "C16", [f"{EPOCH}::EpochManager.__init__", f"{EPOCH}::EpochManager.append", f"{EPOCH}::EpochManager.next", f"{EPOCH}::EpochManager.has_more",
+def observable_unit(interleave, uid=None, prop="C16"):
+    @unit(uid or f"C16.observable.{interleave}", prop, [f"{EPOCH}::EpochManager.__init__", f"{EPOCH}::EpochManager.append", f"{EPOCH}::EpochManager.next", f"{EPOCH}::EpochManager.has_more",
                                                  f"{EPOCH}::EpochConfig.to_state"],
           assumptions=["three append attempts with arbitrary (symbolic) configurations, each accepted or rejected; observation through the public methods only "
                        "(independent of how the manager represents its state)"], max_paths=4000)
@@ -452,3 +452,10 @@ def u_builder_epochs(ip):
     c.oblige("schedule_goes_through_epoch_manager", b.f["_epochs"].f["_configs"] == ("managed", "SCHEDULE"))
     ip.call(method(ip, b, "set_epochs"), ["USER"], {})
     c.oblige("user_schedule_goes_through_epoch_manager", b.f["_epochs"].f["_configs"] == ("managed", "USER"))
+
+
+# the builder and the engine constructor end to end through the public API (same harness as C10.build_end_to_end)
+from contracts.c10 import build_whole_unit  # noqa: E402
+
+build_whole_unit("C16.build_end_to_end", "C16", "A")
+build_whole_unit("C16.build_end_to_end.variant_b", "C16", "B")
